@@ -131,6 +131,94 @@ func runC06(r *Run) {
 	if r.Want("resetrace") {
 		c06ResetVersusTrailer(r)
 	}
+	if r.Want("replies") {
+		c06ReplyEnvelopes(r)
+	}
+}
+
+func routeCanon(e *Rpc) string {
+	h := e.GetHeader()
+	rst := "none"
+	if e.Reset_ != nil {
+		rst = hxs(e.Reset_.Type)
+	}
+	return fmt.Sprintf("id=%d~method=%s~src=%s~dst=%s~next=%s~reset=%s", e.Id, hxs(h.GetMethod()), hxs(h.GetSource()), hxs(h.GetDestination()), hxList(h.GetProxyNext()), rst)
+}
+
+// c06ReplyEnvelopes: the unary reply and the reset envelope, field by field, against the model
+// (id echoed, source/destination swapped, return route = proxy record without its last hop, response
+// metadata and trailer metadata, status only on failure, body only on success).
+func c06ReplyEnvelopes(r *Run) {
+	rng := r.Rand("c06.replies")
+	n := r.Scale(300, 20000)
+	sc := NewScript(0)
+	sc.Out = make(chan *Rpc, 64)
+	srv := goat.NewServer("srv")
+	impl := &Impl{}
+	var hm, tm metadata.MD
+	var herr error
+	impl.SetUnary(func(ctx context.Context, req []byte) ([]byte, error) {
+		if len(hm) > 0 {
+			grpc.SetHeader(ctx, hm)
+		}
+		if len(tm) > 0 {
+			grpc.SetTrailer(ctx, tm)
+		}
+		if herr != nil {
+			return nil, herr
+		}
+		return req, nil
+	})
+	impl.SetStream(func(method string, ss grpc.ServerStream) error { return nil })
+	srv.RegisterService(&echoDesc, impl)
+	ctx, cancel := context.WithCancel(context.Background())
+	defer cancel()
+	served := make(chan error, 1)
+	go func() { served <- srv.Serve(ctx, sc) }()
+	for i := 0; i < n; i++ {
+		id := uint64(1 + rng.Intn(1000))
+		src := []string{"c", "client-7", "", "x/y"}[rng.Intn(4)]
+		method := []string{mUnary, "verif.Echo/Unary"}[rng.Intn(2)]
+		var record []string
+		for j, k := 0, rng.Intn(4); j < k; j++ {
+			record = append(record, fmt.Sprintf("p%d", rng.Intn(3)))
+		}
+		hm, tm = genSmallMD(rng), genSmallMD(rng)
+		kind, code, msg := "nil", 0, ""
+		herr = nil
+		switch rng.Intn(4) {
+		case 0:
+			kind, code, msg = "status", 1+rng.Intn(16), "failed"
+			herr = status.Error(codes.Code(code), msg)
+		case 1:
+			kind, msg = "plain", "plain failure"
+			herr = fmt.Errorf("%s", msg)
+		}
+		payload := []byte(genTextValue(rng))
+		pb, _ := goat_marshal(&wrapperspb.BytesValue{Value: payload})
+		req := &Rpc{Id: id, Header: &goatorepo.RequestHeader{Method: method, Source: src, Destination: "srv", ProxyRecord: record}, Body: &goatorepo.Body{Data: pb}}
+		in := fmt.Sprintf("%d|%s|%s|%s|%s|%s|%d|%s|%s|%s|%s", id, hxs(mUnary), hxs(src), hxs("srv"), hxList(record), kind, code, hxs(msg), mdInput(hm), mdInput(tm), hx(payload))
+		r.Progress("replies", in)
+		var rep *Rpc
+		ok := within(hangTimeout, func() { sc.In <- req; rep = <-sc.Out })
+		if !ok {
+			r.Violate("replies.hang", "ops", "no reply", in, nil, nil)
+			return
+		}
+		r.Case("unaryreply", in, routeCanon(rep)+"~"+envCanon(rep))
+		r.Count("replies.unary." + kind)
+		// a body for a stream the server does not know: the reset envelope
+		if i%3 == 0 {
+			q := &Rpc{Id: id + 5000, Header: &goatorepo.RequestHeader{Method: mBidi, Source: src, Destination: "srv", ProxyRecord: record}, Body: &goatorepo.Body{}}
+			ok := within(hangTimeout, func() { sc.In <- q; rep = <-sc.Out })
+			if !ok {
+				r.Violate("replies.hang", "ops", "no reset", in, nil, nil)
+				return
+			}
+			r.Case("resetreply", fmt.Sprintf("%d|%s|%s|%s|%s", id+5000, hxs(mBidi), hxs(src), hxs("srv"), hxList(record)), routeCanon(rep)+"~"+envCanon(rep))
+			r.Count("replies.reset")
+		}
+	}
 }
 
 // gateRW is a server-side transport that holds the first trailer it is asked to write until released,
